@@ -193,7 +193,7 @@ Definition compile (O : oracles) (p : pool) (o : op) : option (list l2op) :=
     Some (generic (with_frame p i (fun f => do b <- op_to_csv O f; op_from_csv O b)))
   (* observations: no slice is written *)
   | OGroupby _ _ | OToCSV _ | ORow _ _ | OColumnNames _ | ONrows _ | ONcols _ | OAgg _ _ | OString _ | OSelect _ _ | OColAt _ _ _ | OSeries _ _ _
-  | OPlot _ _ _ _ _ _ | OGroupbyOther _ _ => Some []
+  | OPlot _ _ _ _ _ _ | OGroupbyOther _ _ | OIoFail _ _ => Some []
   (* edits in place *)
   | OAppendRow i r =>
     on_frame p i (Some []) (fun f =>
@@ -719,7 +719,7 @@ Definition is_deriving (o : op) : bool :=
 Definition is_observation (o : op) : bool :=
   match o with
   | OGroupby _ _ | OToCSV _ | ORow _ _ | OColumnNames _ | ONrows _ | ONcols _ | OAgg _ _ | OString _ | OSelect _ _ | OColAt _ _ _ | OSeries _ _ _
-  | OPlot _ _ _ _ _ _ | OGroupbyOther _ _ => true
+  | OPlot _ _ _ _ _ _ | OGroupbyOther _ _ | OIoFail _ _ => true
   | _ => false
   end.
 
